@@ -723,7 +723,6 @@ func waitEnds(in *Inst, seen []int, want []int) []int {
 // RunBlk drives one instance of the program: answers pending tasks in the order chosen by choose (index
 // into the sorted observed pending list), writing variables as writesFor decides.
 func RunBlk(b *Blk, env0 [4]bool, choose func(n int) int, writesFor func(task, nth int) [4]int, maxSteps int, opts ...bpmn.Option) blkObs {
-	var o blkObs
 	defs, err := ParseDefsShared(BlkProg(b).XML("")) // every script of a program runs on the one parsed document
 	must(err)
 	vars := map[string]any{}
@@ -735,6 +734,16 @@ func RunBlk(b *Blk, env0 [4]bool, choose func(n int) int, writesFor func(task, n
 	in, err := StartInst(defs, InstOpt{Vars: vars, Opts: opts})
 	must(err)
 	defer in.Close()
+	return DriveBlk(in, b, env0, choose, writesFor, maxSteps)
+}
+
+// DriveBlk drives an instance of the program that has already been started with the variables env0
+func DriveBlk(in *Inst, b *Blk, env0 [4]bool, choose func(n int) int, writesFor func(task, nth int) [4]int, maxSteps int) blkObs {
+	var o blkObs
+	env := make([]bool, 4)
+	for i, v := range env0 {
+		env[i] = v
+	}
 	var wantEnds, seenEnds []int
 	r := bstart(env, b, &wantEnds)
 	var want []int
